@@ -1,5 +1,7 @@
 (* C13 -- character-encoding fidelity (partial).  Only statements, `exact` proofs and Print Assumptions. *)
 From LolModel Require Import Base TextDecoder.
+From LolModel Require Import Machine Selectors Rewriter StreamSink.
+From LolProofs Require Import StreamSinkProof.
 From LolProofs Require Import TextDecoderProof Utf8Decoder.
 From Coq Require Import List.
 Import ListNotations.
@@ -45,5 +47,23 @@ Example C13_utf8_instance_example :
   = [([97%N], false, 10, 12); ([228; 184; 173; 239; 191; 189]%N, false, 12, 16); ([239; 191; 189]%N, true, 16, 16)].
 Proof. vm_compute. reflexivity. Qed.
 
+(* Content written by handlers as UTF-8 byte fragments (StreamingHandlerSink::write_utf8_chunk, IncompleteUtf8Resync): for EVERY
+   way of cutting a valid UTF-8 string into fragments -- cuts inside characters, one-byte and empty fragments -- every write
+   succeeds and what reaches the output is the string (escaped when the content type is Text), nothing lost, duplicated or
+   reordered; and a write is refused only when its bytes do not continue the stream as valid UTF-8. *)
+Theorem C13_utf8_fragments_written_to_a_sink_are_the_string :
+  forall ct frags, from_utf8 (List.concat frags) = U8Ok ->
+  exists outs, sink_run nil (map (fun f => SkUtf8 f ct) frags) = map (fun o => (true, o)) outs /\ List.concat outs = sk_emit ct (List.concat frags).
+Proof. exact utf8_fragments_written_to_a_sink_are_the_string. Qed.
+Theorem C13_sink_refuses_only_invalid_utf8 :
+  forall st c ps, reach st -> write_chunk 3 st c nil = (None, ps) -> u8_adv st c = None.
+Proof. exact write_fails_only_on_invalid. Qed.
+Example C13_sink_example :
+  sink_run nil (SkUtf8 (bs "a") CtText :: SkUtf8 (226 :: 130 :: nil)%N CtText :: SkUtf8 (172 :: 60 :: nil)%N CtText :: nil)
+  = (true, bs "a") :: (true, nil) :: (true, (226 :: 130 :: 172 :: nil)%N ++ bs "&lt;") :: nil.
+Proof. vm_compute. reflexivity. Qed.
+
 Print Assumptions C13_text_chunks_are_the_whole_buffer_decode.
 Print Assumptions C13_utf8_any_split_equals_whole_decode.
+Print Assumptions C13_utf8_fragments_written_to_a_sink_are_the_string.
+Print Assumptions C13_sink_refuses_only_invalid_utf8.
